@@ -3405,6 +3405,11 @@ MANIFEST = {
     "design_ref": "DESIGN.md 4/C10, 8.6, 8.10",
 }
 FINDINGS = [
+    {"status": "fixed", "key": "logic.auto.auto_conv:crash:RecursionError", "commit": "d255d21",
+     "what": "auto_conv on y ^ -(1::real) * y ^ (1 / 2) * y ^ -(1::real) * z (no conditions) ended in RecursionError: norm_mult_atom "
+             "re-associated (a * b) * c to a * (b * c) for atoms b, c with the same body and left the product right-nested when "
+             "combine_atom could not combine them (positivity of the body unknown); auto.norm then alternated for ever between "
+             "y ^ -1 * z * (y ^ (1 / 2) * y ^ -1) and y ^ -1 * (y ^ (1 / 2) * y ^ -1) * z (found by the history stream at seed 1 in a fresh sandbox)"},
     {"status": "fixed", "key": "data.nat.nat_conv:eval-without-proof", "commit": "eeb811d",
      "what": "nat_conv.eval reported |- 5 - 3 = 2 (nat_eval computes truncated subtraction) while get_proof_term raises "
              "ConvException: the fast evaluation claimed an equation the conversion cannot prove"},
